@@ -100,6 +100,8 @@ class ManagedRule(Rule):
             name, init = s.a[0].a[0], s.a[1]
         else:
             return st
+        while init is not None and init.k in ('cast', 'ptrcast'):
+            init = init.a[-1]
         if init is not None and init.k == 'call' and init.a[0] == 'ace_time::ZoneProcessorCache::getZoneProcessor' \
                 and init.a[1] is not None and path_of(init.a[1]) == 'this.mZoneProcessorCache':
             ok = len(init.a[2]) == 1 and path_of(init.a[2][0]) == 'this.mZoneInfo'
@@ -108,15 +110,31 @@ class ManagedRule(Rule):
                 self.R.violation('R2', self.fn.name, s.loc, 'cache is asked for %s, not for this zone (mZoneInfo)' % show(init.a[2][0]))
                 return self._set(st, name, None)
             return self._set(st, name, 'maybe')
+        if init is not None and init.k == 'null':
+            return self._set(st, name, 'null')
+        if init is not None and path_of(init) == 'this.mZoneProcessor':
+            # the shared processor under a local name: as good as the member itself, i.e. usable when rebound on this path
+            return self._set(st, name, 'shared-bound' if self._get(st, '#shared') else 'shared-unbound')
+        if init is not None and init.k == 'var' and self._get(st, init.a[0]) is not None:
+            return self._set(st, name, self._get(st, init.a[0]))
         return self._set(st, name, None)
 
     def refine(self, cond, st, truth):
         p, positive = null_test(cond)
-        if p is not None and self._get(st, p) is not None:
-            return self._set(st, p, 'nonnull') if truth == positive else self._set(st, p, 'null')
+        cur = self._get(st, p) if p is not None else None
+        if cur is not None:
+            nonnull = truth == positive
+            if cur == 'null':
+                return None if nonnull else st          # a pointer that is null on this path is not "true"
+            if cur in ('nonnull', 'shared-bound', 'shared-unbound'):
+                return st if nonnull else (None if cur == 'nonnull' else self._set(st, p, 'null'))
+            return self._set(st, p, 'nonnull') if nonnull else self._set(st, p, 'null')
         return st
 
     def event(self, e, st, tr):
+        if e.k == 'call' and e.a[1] is not None and e.a[0] == ZP + '::setZoneInfo' and path_of(e.a[1]) == 'this.mZoneProcessor' \
+                and len(e.a[2]) == 1 and path_of(e.a[2][0]) == 'this.mZoneInfo':
+            return self._set(st, '#shared', 'bound')
         if e.k == 'call' and e.a[1] is not None and e.a[0] in self.uses:
             recv = path_of(e.a[1])
             if recv == 'this.mZoneProcessor' or recv is None:
@@ -127,7 +145,10 @@ class ManagedRule(Rule):
             if s is None:
                 self.R.violation('R2', c, e.loc, 'processor %s does not come from mZoneProcessorCache->getZoneProcessor(mZoneInfo) on this path' % recv,
                                  detail=list(tr))
-            elif s != 'nonnull':
+            elif s == 'shared-unbound':
+                self.R.violation('R2', c, e.loc, 'processor %s is the shared mZoneProcessor, used without mZoneProcessor->setZoneInfo(mZoneInfo) on this path' % recv,
+                                 detail=list(tr))
+            elif s not in ('nonnull', 'shared-bound'):
                 self.R.violation('R2', c, e.loc, 'processor %s is used without a null test on this path' % recv, detail=list(tr))
         return st
 
@@ -329,14 +350,11 @@ def index_rule(R, lib, f):
     size = int(t[t.rindex('[') + 1:-1])
     arrp = 'this.' + arr[0]
     # interval analysis of the single counter used to index the slot array
-    idx_paths = set()
-    for e in all_exprs(f.body):
-        if e.k == 'index' and path_of(e.a[0]) == arrp:
-            p = path_of(e.a[1].a[2] if e.a[1].k == 'cast' else e.a[1])
-            idx_paths.add(p)
-    if len(idx_paths) != 1 or None in idx_paths:
-        raise AnalysisError('%s: slot array indexed by %r' % (f.loc, idx_paths))
-    idx = idx_paths.pop()
+    # the round-robin counter: the one integer member of the cache beside the slot array
+    counters = [n for n, t in fields.items() if t and not t.endswith(']') and int_type(t)]
+    if len(counters) != 1:
+        raise AnalysisError('%s: expected one integer counter member in the cache, found %r' % (f.loc, counters))
+    idx = 'this.' + counters[0]
     # E-ABS: the counter starts inside [0, SIZE) (class invariant, re-established at every exit: checked below); every
     # subscript of the slot array and every exit must find it there.  The wrap may be spelled `i++; if (i >= SIZE) i = 0`,
     # `i = (i + 1 < SIZE) ? i + 1 : 0`, a modulus, ...: the interpreter works on the relations, not on the spelling.
@@ -703,8 +721,12 @@ def key_value_rule(R, lib, cls, f, isf, key):
     that path, and every fill helper that takes the year gets that same value."""
     from .gnf import Poly, SymExec, formula_atoms, poly_key_str
     sx = SymExec(fold_global=lib.global_value)
+    # isFilled() is summarised in place: whether init() calls it or spells its test out, the path condition then says
+    # which value was compared with the cached key
+    sx.inliner = lambda name, nargs: isf if (name == isf.name and nargs == len(isf.params)) else None
     summ = sx.run(f.name, f.body, {})
     stores = 0
+    keysym = ('sym', 'this.' + key)
     ptype = (isf.params[0][1] or '').replace('const', '').strip() if isf.params else ''
 
     def single_fn(pk):
@@ -742,6 +764,14 @@ def key_value_rule(R, lib, cls, f, isf, key):
                 fa = single_fn(a[1])
                 if fa is not None and fa[1] == isf.name and len(fa[2]) >= 2:
                     tested.append(fa[2][-1])
+            elif a[0] == 'atom' and a[2] == '==':
+                # <value> == this.<key>: the comparison atom is  s * key + rest == c ; the value asked about is (c - rest) / s
+                P_ = Poly(dict(a[1]))
+                s_ = P_.coef(keysym)
+                if s_ in (1, -1) and P_.linear_in() is not None:
+                    rest = P_ - Poly.atom(keysym) * Poly.const(s_)
+                    val = (Poly.const(a[3]) - rest) * Poly.const(s_)
+                    tested.append(val.key())
         if not tested:
             R.violation('R4-keyval', c, f.loc, 'the cache key %s is overwritten on a path that did not ask isFilled() first' % key)
         for t in tested:
@@ -889,15 +919,16 @@ def python_reset_rule(R, m, f):
     cls = f.cls
     memo = {}
     reset = set()
-    seen_key = False
+    past_guard = False        # behind the "this year is cached" early return: from here on the cache is being refilled
     for s in f.node.body:
+        if isinstance(s, ast.If) and any(isinstance(x, ast.Return) for x in ast.walk(s)):
+            past_guard = True
+            continue
         for x in ast.walk(s):
             if isinstance(x, ast.Assign):
                 for t in x.targets:
                     a = _self_attr(t)
-                    if a == 'year':
-                        seen_key = True
-                    elif a and seen_key and not any(_self_attr(y) == a for y in ast.walk(x.value)):
+                    if a and a != 'year' and past_guard and not any(_self_attr(y) == a for y in ast.walk(x.value)):
                         reset.add(a)
         calls = [x for x in ast.walk(s) if isinstance(x, ast.Call) and _self_attr(x.func)]
         for x in calls:
@@ -906,7 +937,7 @@ def python_reset_rule(R, m, f):
                 c = '%s:%s' % (f.name, a)
                 R.instance('R5-reset', c, m.loc(x), 'accumulated by %s' % _self_attr(x.func))
                 if a not in reset:
-                    R.violation('R5-reset', c, m.loc(x), 'self.%s is grown by %s() but init_for_year does not reset it after the cache key is written: '
+                    R.violation('R5-reset', c, m.loc(x), 'self.%s is grown by %s() but init_for_year does not reset it before refilling the cache: '
                                 'what was computed for the previously cached year stays in it, so the answer depends on the order of the years asked' % (a, _self_attr(x.func)))
                     reset.add(a)      # report once
 
